@@ -94,6 +94,9 @@ type Network interface {
 }
 
 func GetNetInstance() Network {
+	if n := simNet(); n != nil {
+		return n
+	}
 	return &instance
 }
 
